@@ -155,11 +155,15 @@ impl<C: Cursor> Cursor for BoundsCursor<C> {
     }
 
     fn prev(&mut self) -> Result<(), SError> {
-        if self.bounds != Bounds::BeforeStart {
+        while self.bounds != Bounds::BeforeStart {
             self.cursor.prev()?;
             self.bounds = Bounds::Positioned;
+            self.check_for_end_bound_exceeded();
+            self.check_for_start_bound_exceeded();
+            if self.bounds != Bounds::AfterEnd {
+                return Ok(());
+            }
         }
-        self.check_for_start_bound_exceeded();
         Ok(())
     }
 
